@@ -2,6 +2,25 @@
 
 package server
 
+// The "world" of the lifecycle harnesses: the real Service / rescache.Cache /
+// wsConn / Subscription objects wired to a harness messaging client, with the
+// two worker loops (wsConn.outputWorker, Cache.startWorker) driven
+// explicitly by a scheduler. The same code runs under the symbolic engine and
+// natively (replay).
+
+import (
+	"encoding/json"
+	"net/http"
+	"sync"
+	"time"
+
+	"github.com/gorilla/websocket"
+	"github.com/posener/wstest"
+	"github.com/resgateio/resgate/server/mq"
+	"github.com/resgateio/resgate/server/rescache"
+	"github.com/resgateio/resgate/zzvf"
+)
+
 // vfBareConn is a wsConn with just enough around it for the counting code.
 func vfBareConn() *wsConn {
 	s := &Service{logger: vfLogger{}}
@@ -16,3 +35,380 @@ func (vfLogger) Debug(s string) {}
 func (vfLogger) Trace(s string) {}
 func (vfLogger) IsDebug() bool  { return false }
 func (vfLogger) IsTrace() bool  { return false }
+
+// ---------------------------------------------------------------- mq stub
+
+type vfRequest struct {
+	subject  string
+	payload  []byte
+	cb       mq.Response
+	answered bool
+	seq      int
+}
+
+type vfMQSub struct {
+	ns     string
+	cb     mq.Response
+	unsub  bool
+	client *vfMQ
+}
+
+func (s *vfMQSub) Unsubscribe() error {
+	s.client.mu.Lock()
+	defer s.client.mu.Unlock()
+	s.unsub = true
+	s.client.log = append(s.client.log, "U "+s.ns)
+	return nil
+}
+
+// vfMQ implements mq.Client following the contract of server/mq/mq.go: the
+// Response of SendRequest is called once, later, never synchronously.
+type vfMQ struct {
+	mu   sync.Mutex
+	reqs []*vfRequest
+	subs []*vfMQSub
+	log  []string
+	seq  int
+}
+
+func (m *vfMQ) Connect() error                  { return nil }
+func (m *vfMQ) Close()                          {}
+func (m *vfMQ) IsClosed() bool                  { return false }
+func (m *vfMQ) SetClosedHandler(cb func(error)) {}
+
+const vfMaxControlLine = 4096
+const vfInboxLen = 29
+
+func (m *vfMQ) SendRequest(subject string, payload []byte, cb mq.Response) {
+	m.mu.Lock()
+	defer m.mu.Unlock()
+	m.seq++
+	m.reqs = append(m.reqs, &vfRequest{subject: subject, payload: payload, cb: cb, seq: m.seq})
+	m.log = append(m.log, "R "+subject)
+}
+
+func (m *vfMQ) Subscribe(namespace string, cb mq.Response) (mq.Unsubscriber, error) {
+	if len(namespace) > vfMaxControlLine-2 {
+		return nil, mq.ErrSubjectTooLong
+	}
+	m.mu.Lock()
+	defer m.mu.Unlock()
+	s := &vfMQSub{ns: namespace, cb: cb, client: m}
+	m.subs = append(m.subs, s)
+	m.log = append(m.log, "S "+namespace)
+	return s, nil
+}
+
+// pending returns the unanswered requests in send order.
+func (m *vfMQ) pending() []*vfRequest {
+	m.mu.Lock()
+	defer m.mu.Unlock()
+	var out []*vfRequest
+	for _, r := range m.reqs {
+		if !r.answered {
+			out = append(out, r)
+		}
+	}
+	return out
+}
+
+// activeSub returns the live subscription on a namespace, if any.
+func (m *vfMQ) activeSub(ns string) *vfMQSub {
+	m.mu.Lock()
+	defer m.mu.Unlock()
+	for _, s := range m.subs {
+		if s.ns == ns && !s.unsub {
+			return s
+		}
+	}
+	return nil
+}
+
+func (m *vfMQ) activeSubs() int {
+	m.mu.Lock()
+	defer m.mu.Unlock()
+	n := 0
+	for _, s := range m.subs {
+		if !s.unsub {
+			n++
+		}
+	}
+	return n
+}
+
+// answer completes request r with a payload or an error (exactly once).
+func (m *vfMQ) answer(r *vfRequest, payload []byte, err error) {
+	if r.answered {
+		zzvf.Assert(false, "harness-answers-once")
+	}
+	r.answered = true
+	if len(r.subject)+vfInboxLen > vfMaxControlLine {
+		r.cb("", nil, mq.ErrSubjectTooLong)
+		return
+	}
+	if err != nil {
+		r.cb("", nil, err)
+		return
+	}
+	r.cb(r.subject, payload, nil)
+}
+
+// event delivers a service event if the gateway is subscribed to it.
+func (m *vfMQ) event(ns, name string, payload []byte) bool {
+	s := m.activeSub(ns)
+	if s == nil {
+		return false
+	}
+	s.cb(ns+"."+name, payload, nil)
+	return true
+}
+
+// ---------------------------------------------------------------- world
+
+type vfClient struct {
+	c      *wsConn
+	sink   *vfSink
+	seen   int
+	frames []string
+	nextID uint64
+}
+
+type vfWorld struct {
+	s       *Service
+	mq      *vfMQ
+	clients []*vfClient
+}
+
+type vfSink struct {
+	mu     sync.Mutex
+	frames []string
+}
+
+func (s *vfSink) add(f string) {
+	s.mu.Lock()
+	s.frames = append(s.frames, f)
+	s.mu.Unlock()
+}
+
+func (s *vfSink) snapshot() []string {
+	s.mu.Lock()
+	defer s.mu.Unlock()
+	return append([]string(nil), s.frames...)
+}
+
+func vfNewWorld(cfg Config) *vfWorld {
+	m := &vfMQ{}
+	s := &Service{cfg: cfg, logger: vfLogger{}, mq: m}
+	if s.cfg.APIPath == "" {
+		s.cfg.APIPath = "/api/"
+	}
+	if s.cfg.allowOrigin == nil {
+		s.cfg.allowOrigin = []string{"*"}
+	}
+	s.conns = make(map[string]*wsConn)
+	s.stop = make(chan error, 1)
+	s.cache = rescache.NewCache(m, 0, cfg.ResetThrottle, time.Hour, s.logger, nil)
+	if err := s.cache.Start(); err != nil {
+		zzvf.Assert(false, "harness-cache-start")
+	}
+	s.enc = apiEncoderFactories["json"](s.cfg)
+	return &vfWorld{s: s, mq: m}
+}
+
+// vfNativeWS creates an in-memory websocket pair (native mode) and collects
+// the frames the gateway writes.
+func vfNativeWS() (*websocket.Conn, *vfSink) {
+	up := websocket.Upgrader{}
+	ch := make(chan *websocket.Conn, 1)
+	h := http.HandlerFunc(func(w http.ResponseWriter, r *http.Request) {
+		c, err := up.Upgrade(w, r, nil)
+		if err != nil {
+			panic(err)
+		}
+		ch <- c
+	})
+	d := wstest.NewDialer(h)
+	client, _, err := d.Dial("ws://vf/", nil)
+	if err != nil {
+		panic(err)
+	}
+	server := <-ch
+	sink := &vfSink{}
+	go func() {
+		for {
+			_, data, err := client.ReadMessage()
+			if err != nil {
+				return
+			}
+			sink.add(string(data))
+		}
+	}()
+	return server, sink
+}
+
+// connect creates a client connection the way Service.newWSConn does, except
+// that the output worker is not started as a goroutine: the scheduler runs it.
+func (w *vfWorld) connect(cid string, protocol int) *vfClient {
+	s := w.s
+	conn := &wsConn{
+		cid:         cid,
+		request:     &http.Request{Header: http.Header{}, RemoteAddr: "127.0.0.1:1", RequestURI: "/"},
+		serv:        s,
+		subs:        make(map[string]*Subscription),
+		queue:       make([]func(), 0, WSConnWorkerQueueSize),
+		work:        make(chan struct{}, 1),
+		protocolVer: protocol,
+	}
+	conn.connStr = "[" + conn.cid + "]"
+	s.conns[conn.cid] = conn
+	s.wg.Add(1)
+	conn.subscribeConn()
+	s.cache.AddConn(conn)
+	cl := &vfClient{c: conn, nextID: 1}
+	if zzvf.Symbolic() {
+		conn.ws = &websocket.Conn{}
+	} else {
+		conn.ws, cl.sink = vfNativeWS()
+	}
+	w.clients = append(w.clients, cl)
+	return cl
+}
+
+// ---- scheduler primitives
+
+// drainConn runs the connection's output worker until its queue is empty.
+func (w *vfWorld) drainConn(cl *vfClient) bool {
+	c := cl.c
+	c.mu.Lock()
+	n := len(c.queue)
+	c.mu.Unlock()
+	if n == 0 {
+		return false
+	}
+	zzvf.RunUntilBlocked(c.outputWorker, func() bool {
+		c.mu.Lock()
+		defer c.mu.Unlock()
+		return len(c.queue) == 0 && len(c.work) == 0
+	})
+	zzvf.Settle()
+	return true
+}
+
+// cacheStep lets a cache worker process one scheduled EventSubscription.
+func (w *vfWorld) cacheStep() bool {
+	ok := rescache.VFCacheStep(w.s.cache)
+	if ok {
+		zzvf.Settle()
+	}
+	return ok
+}
+
+// settle runs every internal queue to completion (eager policy): cache
+// workers first, then the connections in order, until nothing is left.
+func (w *vfWorld) settle() {
+	zzvf.Settle()
+	for i := 0; i < 200; i++ {
+		progress := false
+		for w.cacheStep() {
+			progress = true
+		}
+		for _, cl := range w.clients {
+			if w.drainConn(cl) {
+				progress = true
+			}
+		}
+		if !progress {
+			return
+		}
+	}
+	zzvf.Assert(false, "harness-settle-terminates")
+}
+
+// newFrames returns the frames written to the client since the last call.
+func (w *vfWorld) newFrames(cl *vfClient) []string {
+	var all []string
+	if zzvf.Symbolic() {
+		all = zzvf.WSFrames(cl.c.ws)
+	} else {
+		time.Sleep(time.Millisecond)
+		all = cl.sink.snapshot()
+	}
+	out := all[cl.seen:]
+	cl.seen = len(all)
+	cl.frames = append(cl.frames, out...)
+	return out
+}
+
+// send enqueues a client frame exactly as wsConn.listen does.
+func (w *vfWorld) send(cl *vfClient, method string, params string) uint64 {
+	id := cl.nextID
+	cl.nextID++
+	frame := `{"id":` + vfItoa(id) + `,"method":` + vfQuote(method)
+	if params != "" {
+		frame += `,"params":` + params
+	}
+	frame += `}`
+	in := []byte(frame)
+	c := cl.c
+	c.Enqueue(func() {
+		vfHandleRequest(in, c)
+	})
+	return id
+}
+
+// disconnect closes the connection the way wsConn.listen does on a read
+// error, without waiting for the worker.
+func (w *vfWorld) disconnect(cl *vfClient) {
+	c := cl.c
+	c.Enqueue(func() { c.dispose() })
+}
+
+func vfItoa(n uint64) string {
+	if n == 0 {
+		return "0"
+	}
+	var b [20]byte
+	i := len(b)
+	for n > 0 {
+		i--
+		b[i] = byte('0' + n%10)
+		n /= 10
+	}
+	return string(b[i:])
+}
+
+func vfQuote(s string) string {
+	b, _ := json.Marshal(s)
+	return string(b)
+}
+
+// ---- frames
+
+type vfFrame struct {
+	ID     *uint64         `json:"id"`
+	Result json.RawMessage `json:"result"`
+	Error  *struct {
+		Code    string `json:"code"`
+		Message string `json:"message"`
+	} `json:"error"`
+	Event string          `json:"event"`
+	Data  json.RawMessage `json:"data"`
+}
+
+func vfParseFrame(f string) vfFrame {
+	var fr vfFrame
+	if err := json.Unmarshal([]byte(f), &fr); err != nil {
+		zzvf.Assert(false, "gateway-frame-is-valid-json")
+	}
+	return fr
+}
+
+// ---- service payloads
+
+func vfJSON(v interface{}) []byte {
+	b, err := json.Marshal(v)
+	if err != nil {
+		zzvf.Assert(false, "harness-marshal")
+	}
+	return b
+}
